@@ -102,8 +102,10 @@ P("C09", [f"{RED}:get_multiplier_sequence"], "bounded/C09.py",
 P("C10", [f"{BAL}:_init", f"{BAL}:_binarize", f"{BAL}:_zero_diags", f"{BAL}:_zero_trans", f"{BAL}:_zero_cis", f"{BAL}:_timesouterproduct", f"{BAL}:balance_cooler"], "bounded/C10.py", "Proof core: the per-pixel filters of the balancing pipeline are verified elementwise for every chunk (which pixels are zeroed: |bin1-bin2| < n_diags strictly, trans / cis by the chromosome of the two bins; binarisation; weighting by vec[bin1]*vec[bin2]) together with their frame (no filter writes the shared chunk; _init returns a fresh copy). balance_cooler itself is verified as a coordinator (sweeps and the split engine replaced by recording stubs; all nnz, bin counts, thresholds, chunk sizes, modes): the binarised marginal pass runs iff min_nnz > 0 and every pass uses exactly the requested filters; the initial bias handed to the sweeps is 0 exactly for the bins with nnz-marginal < min_nnz or (min_count set and) count-marginal < min_count and 1 otherwise; exactly one balancer runs, chosen by mode, with the caller's arguments; converged is var < tol; store replaces only bins/<name> and attaches the returned stats. The MAD-max block, x0 and blacklist (excluded by the contract's precondition), the sweeps and the flatness bound are covered by the bounded tier only.", level="other",
   unverified=["_marginalize (bincount)", "_balance_genomewide/_cisonly/_transonly loops (floating-point iteration)", "balance_cooler: MAD-max block, x0, blacklist"])
 
-P("C11", [f"{UT}:partition", f"{BAL}:_init", f"{BAL}:_zero_diags", f"{BAL}:_timesouterproduct", f"{BAL}:balance_cooler"], "bounded/C11.py", "Proof core: balance_cooler's chunk spans tile [0, nnz) for EVERY chunk size (first span at 0, consecutive spans of exactly chunksize pixels, ceil(nnz/chunksize) of them, the last reaches nnz, none starts at or beyond nnz; a single span for chunksize=None) and every marginal pass and the balancer receive the same spans, the caller's map and lock (coordinator contract, shared with C10); util.partition tiles [start, stop) exactly for every step (the per-chromosome spans of cis-only balancing); the per-pixel filters never write the shared chunk. Real maps, pools and completion orders are explored by the bounded tier.", level="other",
-  unverified=["parallel.split / MultiplexDataPipe.run/reduce (fold over the map's results)", "chunkgetter (per-span reads)", "process pools (concurrency is outside contracts)"])
+P("C11", [f"{UT}:partition", f"{BAL}:_init", f"{BAL}:_zero_diags", f"{BAL}:_timesouterproduct", f"{BAL}:balance_cooler",
+          "cooler.parallel:split", "cooler.parallel:chunkgetter.__call__", "cooler.parallel:apply_pipeline",
+          "cooler.parallel:MultiplexDataPipe.pipe", "cooler.parallel:MultiplexDataPipe.run", "cooler.parallel:MultiplexDataPipe.reduce"], "bounded/C11.py", "Proof core: balance_cooler's chunk spans tile [0, nnz) for EVERY chunk size (first span at 0, consecutive spans of exactly chunksize pixels, ceil(nnz/chunksize) of them, the last reaches nnz, none starts at or beyond nnz; a single span for chunksize=None) and every marginal pass and the balancer receive the same spans, the caller's map and lock (coordinator contract, shared with C10); util.partition tiles [start, stop) exactly for every step (the per-chromosome spans of cis-only balancing); the per-pixel filters never write the shared chunk. The split-apply-combine engine is under coordinator contracts: split's keys are the caller's spans (default: partition(0, nnz, chunksize)); pipe() returns a NEW pipe with the filters appended and never shares or changes the receiver's filter list; run() hands the pipe's own filters, initialiser, getter and exactly its keys to the map once; apply_pipeline fetches the key once and threads ONE pristine chunk and each predecessor's output through the filters in order; chunkgetter reads exactly rows [lo, hi) of the pixel table once (lock held around the read when requested, nothing remembered between calls); reduce is functools.reduce of the run's results with the caller's operator from init. Real maps, pools and completion orders are explored by the bounded tier.", level="other",
+  unverified=["the map functor itself (assumed: applies the function to every key exactly once)", "functools.reduce (assumed left fold)", "process pools / completion order (concurrency is outside contracts)"])
 
 P("C12", [f"{API}:matrix", f"{API}:Cooler.matrix", f"{RQ}:CSRReader.__call__"], "bounded/C12.py",
   "Proof: api.matrix (sparse and dense outputs) multiplies every raw value by the weight of its own row bin and its own column bin from the selected column (reciprocals when divisive; rows from [i0,i1), columns from [j0,j1) also when the ranges differ, incl. the aliasing shortcut for equal ranges), refuses a missing column with ValueError, and builds the fill-lower engine iff asked with the window as bounding box (engine outputs by assumed model; their content is C03's exactly-once lemma and the CSRReader.__call__ contract, included). Cooler.matrix is proved to pass every option through, with the divisive default exactly for KR/VC/VC_SQRT when the caller passed None and fill_lower = symmetric-upper. The balanced pixel-table branch (annotate) and dump -b are covered by the bounded tier; NaN propagation through * and / is assumed (IEEE), not modelled.", level="other",
